@@ -13,8 +13,10 @@ import shutil
 import sys
 import traceback
 
-sys.path.insert(0, "/verif")
+ROOT = os.path.dirname(os.path.abspath(__file__))      # /verif, or a snapshot of it (vp run)
+sys.path.insert(0, ROOT)
 sys.path.insert(0, "/repo")
+os.environ["VERIF_ROOT"] = ROOT
 os.environ.setdefault("PYTHONHASHSEED", "0")
 
 from harness import common  # noqa: E402
